@@ -361,7 +361,7 @@ def reportHierText (n : Text.WNet) : Bool × String :=
 
 def whyTokA (m : WModA) : Option String :=
   if !attrsOK m.base.attrs then some "module-attribute-tokens"
-  else if !mparamsOK m.params then some "module-parameter-key(not-a-plain-name,`integer`,or-repeated)"
+  else if !mparamsOK m.params then some "module-parameter-key(neither-a-plain-name-nor-[l:r]-name,`integer`,or-repeated)"
   else orElseS (nameWhy "module" m.base.name) fun _ =>
     orElseS ((m.base.ports.map (·.name)).findSome? (nameWhy "port")) fun _ =>
     orElseS (m.sitems.findSome? whyItem) fun _ =>
